@@ -691,3 +691,23 @@ var Table = Cello(Table,
   Instance(Show,     Table_Show, NULL),
   Instance(Resize,   Table_Resize));
 
+
+#ifdef CELLO_VERIF
+
+void Cello_Verif_Table_Info(var self, size_t* nslots, size_t* nitems) {
+  struct Table* t = self;
+  if (nslots) { *nslots = t->nslots; }
+  if (nitems) { *nitems = t->nitems; }
+}
+
+bool Cello_Verif_Table_Slot(var self, size_t i, uint64_t* hash,
+  var* key, var* val) {
+  struct Table* t = self;
+  if (i >= t->nslots or Table_Key_Hash(t, i) is 0) { return false; }
+  if (hash) { *hash = Table_Key_Hash(t, i); }
+  if (key)  { *key  = Table_Key(t, i); }
+  if (val)  { *val  = Table_Val(t, i); }
+  return true;
+}
+
+#endif
